@@ -174,7 +174,12 @@ class Builder(NullCell):
         if isinstance(address, str):
             address = Address(address)
 
-        self.store_bits('100')  # addr_std$10 + maybe anycast = 0
+        self.store_bits('10')  # addr_std$10
+        if address.anycast is not None:
+            # just$1 (anycast_info$_ depth:(#<= 30) rewrite_pfx:(bits depth))
+            self.store_bit(1).store_uint(address.anycast.depth, 5).store_uint(address.anycast.rewrite_pfx, address.anycast.depth)
+        else:
+            self.store_bit(0)
 
         return self.store_int(address.wc, 8).store_bytes(address.hash_part)
 
